@@ -85,12 +85,12 @@ class Route:
     @classmethod
     def rc(cls, r, name, prefix, counter, dup_ok):
         vhs = []
-        for i in range(r.choice([0, 1, 1, 2, 3])):
+        for i, vn in enumerate(r.sample(["web", "vh-b", "api", "vh-a", "zz", "default"], r.choice([0, 1, 1, 2, 3]))):
             routes = []
             for j in range(r.choice([0, 1, 2, 3, 4])):
                 counter[0] += 1
                 routes.append(cls.http_route(r, ("%s%d" % (prefix, counter[0]), counter[0]), dup_ok))
-            vhs.append(C("Build_vhost_pb", "vh%d" % i, L(routes)))
+            vhs.append(C("Build_vhost_pb", vn, L(routes)))
         return C("Build_rc_pb", name, L(vhs))
 
     @classmethod
